@@ -34,8 +34,8 @@ func init() {
 	register(&core.Property{
 		ID:    "C20",
 		Title: "osmapi calls hit the documented endpoint and map statuses to typed errors",
-		Explanation: "Structural necessary conditions decided on /repo/osmapi (non-test files) against the external table tables/api06.json (API v0.6 paths) by symbolic execution: every function is run with symbolic inputs, package functions inlined, each undecided branch explored under both assumptions; the rules read the outcomes, so helper extraction/inlining (including helpers taking function literals, which are executed in place when called), method vs function form, grouped parameters, lookup tables (map/slice/array/struct literals held in locals or in unexported package variables that are only read, with function values as entries) instead of if-chains or switches, branch form (if/switch/type switch), local names, named constants and statement order do not matter. " +
-			"(H1) on every path of every exported *Datasource endpoint method that returns a nil error exactly one request (call of the request function getFromAPI) was made, on every other path at most one, none in a loop; HTTP requests are created/sent only in getFromAPI and helpers only it calls, which performs Client.Do exactly once before decoding, tests Do's error and returns it; every package-level wrapper performs exactly `DefaultDatasource.<same name>(<its parameters in order>)` and returns its results. " +
+		Explanation: "Structural necessary conditions decided on /repo/osmapi (non-test files) against the external table tables/api06.json (API v0.6 paths) by symbolic execution: every function is run with symbolic inputs, package functions inlined, each undecided branch explored under both assumptions; the rules read the outcomes, so helper extraction/inlining (including helpers taking function literals, which are executed in place when called), method vs function form, grouped parameters, named results, variadic helpers, presized lists written by index, ids copied into number lists, strings accumulated with +=, mutable struct values of the package (field stores, pointer methods), lookup tables (map/slice/array/struct literals held in locals or in unexported package variables that are only read, with function values as entries) instead of if-chains or switches, branch form (if/switch/type switch), local names, named constants and statement order do not matter. " +
+			"(H1) a path that makes no request never returns a status-typed error (endpoints) and, in getFromAPI, a path that never calls Client.Do returns neither a status-typed error nor nil — conditions on the URL (its length, its content) are explored both ways; on every path of every exported *Datasource endpoint method that returns a nil error exactly one request (call of the request function getFromAPI) was made, on every other path at most one, none in a loop; HTTP requests are created/sent only in getFromAPI and helpers only it calls, which performs Client.Do exactly once before decoding, tests Do's error and returns it; every package-level wrapper performs exactly `DefaultDatasource.<same name>(<its parameters in order>)` and returns its results. " +
 			"(H2) every path reaching Client.Do has tested the limiter field against nil and, when it is non-nil, called Wait(ctx) on it before and found its error nil; when Wait fails that error is returned and no request is sent. " +
 			"(H3) executing getFromAPI for every status 100..599, every path with a successful Do ends in exactly the typed error of the table (404, 403, 410, 414, other non-200, the latter recording the status) and in the XML decode of the response body into the item parameter only for 200; NotFound, executed for nil, a foreign error and every error type of the package, is true exactly for the 404 type; the request is a GET created by http.NewRequest; on every endpoint path the request's error is tested and, when non-nil, returned unchanged. " +
 			"(H4) the URL argument of the request, evaluated symbolically on every path (constant format strings, concatenation, option and id-list loops summarised, each hole bound to a method parameter) and merged over the paths (configured vs default base URL, options given or not), equals the table entry; base-URL methods return the configured BaseURL exactly when non-empty, else the default; getFromAPI requests its URL parameter unchanged, without body. " +
@@ -386,6 +386,302 @@ var statusErrors = map[int]func(url string) error{
 
 var notesLimit = struct{ min, max int }{min: 1, max: 100000}
 `, ExpectRule: "H6", ExpectConstruct: "range@Limit"},
+			{Name: "uri-too-long-fabricated-before-limiter-and-request", File: "osmapi/datasource.go",
+				Find: `	if ds.Limiter != nil {
+		err := ds.Limiter.Wait(ctx)
+`,
+				Replace: `	if len(url) > 8190 {
+		// known to fail, do not spend a limiter token and a round trip on it.
+		return &RequestURITooLongError{URL: url}
+	}
+
+	if ds.Limiter != nil {
+		err := ds.Limiter.Wait(ctx)
+`, ExpectRule: "H1", ExpectConstruct: "do-once@"},
+			{Name: "empty-url-returns-nil-without-request", File: "osmapi/datasource.go",
+				Find: `	if ds.Limiter != nil {
+		err := ds.Limiter.Wait(ctx)
+`,
+				Replace: `	if url == "" {
+		return nil
+	}
+
+	if ds.Limiter != nil {
+		err := ds.Limiter.Wait(ctx)
+`, ExpectRule: "H1", ExpectConstruct: "do-once@"},
+			{Name: "ways-empty-id-list-returns-nil-without-request", File: "osmapi/way.go",
+				Find: `	data := make([]byte, 0, 11*len(ids))
+`,
+				Replace: `	if len(ids) == 0 {
+		return nil, nil
+	}
+	data := make([]byte, 0, 11*len(ids))
+`, ExpectRule: "H1", ExpectConstruct: "once@(*Datasource).Ways"},
+			{Name: "node-negative-id-synthesises-404", File: "osmapi/node.go",
+				Find: `	url := fmt.Sprintf("%s/node/%d?%s", ds.baseURL(), id, params)
+`,
+				Replace: `	url := fmt.Sprintf("%s/node/%d?%s", ds.baseURL(), id, params)
+	if id < 0 {
+		return nil, &NotFoundError{URL: url}
+	}
+`, ExpectRule: "H1", ExpectConstruct: "once@(*Datasource).Node"},
+			{Name: "notes-presized-list-leading-empty-element", File: "osmapi/note.go",
+				Find: `	params := make([]string, 0, 1+len(opts))
+	params = append(params, fmt.Sprintf("bbox=%f,%f,%f,%f",
+		bounds.MinLon, bounds.MinLat,
+		bounds.MaxLon, bounds.MaxLat))
+`,
+				Replace: `	params := make([]string, 2, 2+len(opts))
+	params[1] = fmt.Sprintf("bbox=%f,%f,%f,%f",
+		bounds.MinLon, bounds.MinLat,
+		bounds.MaxLon, bounds.MaxLat)
+`, ExpectRule: "H4", ExpectConstruct: "path@(*Datasource).Notes"},
+			{Name: "nodes-presized-ids-joined-with-semicolon", File: "osmapi/node.go",
+				Find: `	"strconv"
+
+	"github.com/paulmach/osm"
+)
+
+// Node returns the latest version of the node from the osm rest api.
+// Delegates to the DefaultDatasource and uses its http.Client to make the request.
+func Node(ctx context.Context, id osm.NodeID, opts ...FeatureOption) (*osm.Node, error) {
+	return DefaultDatasource.Node(ctx, id, opts...)
+}
+
+// Node returns the latest version of the node from the osm rest api.
+func (ds *Datasource) Node(ctx context.Context, id osm.NodeID, opts ...FeatureOption) (*osm.Node, error) {
+	params, err := featureOptions(opts)
+	if err != nil {
+		return nil, err
+	}
+	url := fmt.Sprintf("%s/node/%d?%s", ds.baseURL(), id, params)
+
+	o := &osm.OSM{}
+	if err := ds.getFromAPI(ctx, url, &o); err != nil {
+		return nil, err
+	}
+
+	if l := len(o.Nodes); l != 1 {
+		return nil, fmt.Errorf("wrong number of nodes, expected 1, got %v", l)
+	}
+
+	return o.Nodes[0], nil
+}
+
+// Nodes returns the latest version of the nodes from the osm rest api.
+// Delegates to the DefaultDatasource and uses its http.Client to make the request.
+func Nodes(ctx context.Context, ids []osm.NodeID, opts ...FeatureOption) (osm.Nodes, error) {
+	return DefaultDatasource.Nodes(ctx, ids, opts...)
+}
+
+// Nodes returns the latest version of the nodes from the osm rest api.
+// Will return 404 if any node is missing.
+func (ds *Datasource) Nodes(ctx context.Context, ids []osm.NodeID, opts ...FeatureOption) (osm.Nodes, error) {
+	params, err := featureOptions(opts)
+	if err != nil {
+		return nil, err
+	}
+
+	data := make([]byte, 0, 11*len(ids))
+	for i, id := range ids {
+		if i != 0 {
+			data = append(data, byte(','))
+		}
+		data = strconv.AppendInt(data, int64(id), 10)
+	}
+	url := ds.baseURL() + "/nodes?nodes=" + string(data)
+`,
+				Replace: `	"strconv"
+	"strings"
+
+	"github.com/paulmach/osm"
+)
+
+// Node returns the latest version of the node from the osm rest api.
+// Delegates to the DefaultDatasource and uses its http.Client to make the request.
+func Node(ctx context.Context, id osm.NodeID, opts ...FeatureOption) (*osm.Node, error) {
+	return DefaultDatasource.Node(ctx, id, opts...)
+}
+
+// Node returns the latest version of the node from the osm rest api.
+func (ds *Datasource) Node(ctx context.Context, id osm.NodeID, opts ...FeatureOption) (*osm.Node, error) {
+	params, err := featureOptions(opts)
+	if err != nil {
+		return nil, err
+	}
+	url := fmt.Sprintf("%s/node/%d?%s", ds.baseURL(), id, params)
+
+	o := &osm.OSM{}
+	if err := ds.getFromAPI(ctx, url, &o); err != nil {
+		return nil, err
+	}
+
+	if l := len(o.Nodes); l != 1 {
+		return nil, fmt.Errorf("wrong number of nodes, expected 1, got %v", l)
+	}
+
+	return o.Nodes[0], nil
+}
+
+// Nodes returns the latest version of the nodes from the osm rest api.
+// Delegates to the DefaultDatasource and uses its http.Client to make the request.
+func Nodes(ctx context.Context, ids []osm.NodeID, opts ...FeatureOption) (osm.Nodes, error) {
+	return DefaultDatasource.Nodes(ctx, ids, opts...)
+}
+
+// Nodes returns the latest version of the nodes from the osm rest api.
+// Will return 404 if any node is missing.
+func (ds *Datasource) Nodes(ctx context.Context, ids []osm.NodeID, opts ...FeatureOption) (osm.Nodes, error) {
+	params, err := featureOptions(opts)
+	if err != nil {
+		return nil, err
+	}
+
+	strs := make([]string, len(ids))
+	for i := range ids {
+		strs[i] = strconv.FormatInt(int64(ids[i]), 10)
+	}
+	url := ds.baseURL() + "/nodes?nodes=" + strings.Join(strs, ";")
+`, ExpectRule: "H4", ExpectConstruct: "path@(*Datasource).Nodes"},
+			{Name: "int64-list-join-separator-guard-inverted", File: "osmapi/way.go",
+				Find: `	data := make([]byte, 0, 11*len(ids))
+	for i, id := range ids {
+		if i != 0 {
+			data = append(data, byte(','))
+		}
+		data = strconv.AppendInt(data, int64(id), 10)
+	}
+	url := ds.baseURL() + "/ways?ways=" + string(data)
+	if len(params) > 0 {
+		url += "&" + params
+	}
+
+	o := &osm.OSM{}
+	if err := ds.getFromAPI(ctx, url, &o); err != nil {
+		return nil, err
+	}
+
+	return o.Ways, nil
+}
+`,
+				Replace: `	raw := make([]int64, len(ids))
+	for i, id := range ids {
+		raw[i] = int64(id)
+	}
+	url := ds.baseURL() + "/ways?ways=" + joinInts(raw...)
+	if len(params) > 0 {
+		url += "&" + params
+	}
+
+	o := &osm.OSM{}
+	if err := ds.getFromAPI(ctx, url, &o); err != nil {
+		return nil, err
+	}
+
+	return o.Ways, nil
+}
+
+// joinInts formats the numbers in base 10, comma separated.
+func joinInts(nums ...int64) (list string) {
+	for _, n := range nums {
+		if list == "" {
+			list += ","
+		}
+		list += strconv.FormatInt(n, 10)
+	}
+	return
+}
+`, ExpectRule: "H4", ExpectConstruct: "path@(*Datasource).Ways"},
+			{Name: "request-struct-joins-with-semicolon", File: "osmapi/note.go",
+				Find: `	params := make([]string, 0, 1+len(opts))
+	params = append(params, fmt.Sprintf("bbox=%f,%f,%f,%f",
+		bounds.MinLon, bounds.MinLat,
+		bounds.MaxLon, bounds.MaxLat))
+
+	var err error
+	for _, o := range opts {
+		params, err = o.applyNotes(params)
+		if err != nil {
+			return nil, err
+		}
+	}
+
+	url := fmt.Sprintf("%s/notes?%s", ds.baseURL(), strings.Join(params, "&"))
+
+	o := &osm.OSM{}
+	if err := ds.getFromAPI(ctx, url, &o); err != nil {
+		return nil, err
+	}
+
+	return o.Notes, nil
+}
+`,
+				Replace: `	q := &query{}
+	q.path = ds.baseURL() + "/notes"
+	q.add(fmt.Sprintf("bbox=%f,%f,%f,%f",
+		bounds.MinLon, bounds.MinLat,
+		bounds.MaxLon, bounds.MaxLat))
+
+	for _, o := range opts {
+		var err error
+		if q.parts, err = o.applyNotes(q.parts); err != nil {
+			return nil, err
+		}
+	}
+
+	url := q.String()
+
+	o := &osm.OSM{}
+	if err := ds.getFromAPI(ctx, url, &o); err != nil {
+		return nil, err
+	}
+
+	return o.Notes, nil
+}
+
+// query is a request url under construction.
+type query struct {
+	path  string
+	parts []string
+}
+
+func (q *query) add(p string) { q.parts = append(q.parts, p) }
+
+func (q query) String() (s string) {
+	s = q.path + "?"
+	s += strings.Join(q.parts, ";")
+	return
+}
+`, ExpectRule: "H4", ExpectConstruct: "path@(*Datasource).Notes"},
+			{Name: "named-results-request-error-cleared", File: "osmapi/changeset.go",
+				Find: `func (ds *Datasource) getChangeset(ctx context.Context, url string) (*osm.Changeset, error) {
+	css := &osm.OSM{}
+	if err := ds.getFromAPI(ctx, url, &css); err != nil {
+		return nil, err
+	}
+
+	if l := len(css.Changesets); l != 1 {
+		return nil, fmt.Errorf("wrong number of changesets, expected 1, got %v", l)
+	}
+
+	return css.Changesets[0], nil
+}
+`,
+				Replace: `func (ds *Datasource) getChangeset(ctx context.Context, url string) (cs *osm.Changeset, err error) {
+	css := &osm.OSM{}
+	if err = ds.getFromAPI(ctx, url, &css); err != nil {
+		err = nil
+	}
+
+	if l := len(css.Changesets); l != 1 {
+		err = fmt.Errorf("wrong number of changesets, expected 1, got %v", l)
+		return
+	}
+
+	cs = css.Changesets[0]
+	return
+}
+`, ExpectRule: "H3", ExpectConstruct: "propagate@(*Datasource).Changeset"},
 			{Name: "featureoptions-join-comma", File: "osmapi/options.go", Find: "strings.Join(params, \"&\")", Replace: "strings.Join(params, \",\")", ExpectRule: "H6", ExpectConstruct: "join@featureOptions"},
 		},
 	})
